@@ -567,3 +567,178 @@ def _(ctx):
     ctx.record('K2.constants_sensitivity', PROVED if drift < Fr(1, 10**18) else FAILED, 'B', 0,
                'replacing pi^2/8, ln 2 by 25-digit rationals moves R2 - (ln 2 - S) by at most %.3g (Lipschitz constant %.3g by coefficient sums, q >= q(0)/10 proved above)' % (float(drift), float(lip)),
                solver='exact rational interval arithmetic')
+
+# ====================================================================================================================================
+# Complex dilogarithm: functional equations, Horner scheme, Bernoulli table, truncation
+# ====================================================================================================================================
+# Specification (Lewin (1.11), (1.12); Abramowitz-Stegun 27.7; the Bernoulli form is e.g. 't Hooft-Veltman, Nucl. Phys. B153 (1979) App. A):
+#   Li2(w) = sum_{n>=0} B_n u^(n+1)/(n+1)!,  u = -ln(1 - w)   =  u - u^2/4 + sum_{k>=1} B_2k u^(2k+1)/(2k+1)!          (|u| < 2 pi)
+#   inversion  Li2(z) = -Li2(1/z) - pi^2/6 - ln^2(-z)/2;      reflection  Li2(z) = -Li2(1 - z) + pi^2/6 - ln(z) ln(1 - z)
+#   |B_2k| <= 4 (2k)!/(2 pi)^2k;   in the region |w| <= 1, Re w <= 1/2 (proved: C01.dilog_complex.regions):  |u| <= sqrt(ln^2 2 + (pi/3)^2) < 1.26
+from gm2v.values import Cx as _Cx2
+
+def _cmul(a, b):
+    return (a[0] * b[0] - a[1] * b[1], a[0] * b[1] + a[1] * b[0])
+def _cadd(a, b):
+    return (a[0] + b[0], a[1] + b[1])
+def _cneg(a):
+    return (-a[0], -a[1])
+def _cpair(v):
+    return (z3real(v.re), z3real(v.im)) if isinstance(v, _Cx2) else (z3real(v), z3.RealVal(0))
+
+def replay_cdilog2(model, wd):
+    from contracts.c01 import replay_cdilog
+    return replay_cdilog(model, wd)
+
+@obligation('C01.dilog_complex.series', fns=[(DL, 'dilog'), (DL, 'horner')], replay=replay_cdilog2)
+def _(ctx):
+    """ensures (Im z != 0): (1) horner<1>(z, c) == sum_{i=1..N-1} c_i z^(i-1) for complex z (the real Horner scheme with the (r, s) recurrence, all coefficients symbolic);
+    (2) the coefficient table is bf[0] = -1/4, bf[i] = B_2i/(2i+1)! (to 1e-15 relative: decimal literals); (3) on every series path the result is exactly
+    sgn S(u) + rest with S(u) = u + u^2 (bf[0] + u horner<1>(u^2, bf)) and (u, rest, sgn) the documented functional equation: direct (u = -ln(1-z)), inversion
+    (u = -ln(1 - 1/z), rest = -ln^2(-z)/2 - pi^2/6, sgn = -1), reflection (u = -ln z, rest = u ln(1-z) + pi^2/6, sgn = -1); (4) the truncation after the last table
+    entry leaves a relative remainder <= 1e-13 for |u| <= 1.26 (Bernoulli bound, exact rational arithmetic)"""
+    import sympy
+    from gm2v import ring
+    # ---- (1) Horner
+    fds = [f for f in ctx.w.find('horner', DL)]
+    if len(fds) != 1:
+        ctx.record('horner', ERROR, 'B', 0, '%d definitions of horner' % len(fds))
+        return
+    N = 10
+    a, b = z3.Reals('hz_re hz_im')
+    cs = [z3.Real('c%d' % i) for i in range(N)]
+    it = Interp(ctx.w, mode='sym', div_sides=False)
+    from gm2v.cxx import Type
+    DBL = Type('double', None, False, False, 0)
+    try:
+        ps = it.run_paths(lambda: it.invoke(fds[0], [_Cx2(a, b), list(cs)], None, targs=[1, DBL, N]))
+    except Exception as e:
+        ctx.record('horner', ERROR, 'B', 0, 'extraction: %s' % e)
+        return
+    ctx.merge_rules(it)
+    if len(ps) != 1 or ps[0][2] is not None:
+        ctx.record('horner', FAILED, 'B', 0, '%d paths' % len(ps))
+    else:
+        r = _cpair(ps[0][1])
+        want = (z3.RealVal(0), z3.RealVal(0))
+        zp = (z3.RealVal(1), z3.RealVal(0))
+        for i in range(1, N):
+            want = _cadd(want, (cs[i] * zp[0], cs[i] * zp[1]))
+            zp = _cmul(zp, (a, b))
+        ctx.prove_ring('horner.is_the_polynomial', [(r[0], want[0]), (r[1], want[1])])
+    # ---- (2) table
+    fd = [f for f in ctx.w.find('dilog', DL) if 'complex' in str(f.params[0].type)]
+    if len(fd) != 1:
+        ctx.record('table', ERROR, 'B', 0, '%d complex overloads of dilog' % len(fd))
+        return
+    fd = fd[0]
+    from gm2v import cxx as _cx
+    decls = []
+    def walk(n):
+        if isinstance(n, _cx.Node):
+            if isinstance(n, _cx.Decl) and n.name == 'bf':
+                decls.append(n)
+            for f in n._fields:
+                walk(getattr(n, f, None))
+        elif isinstance(n, (list, tuple)):
+            for x in n:
+                walk(x)
+    walk(ctx.w.body(fd))
+    if len(decls) != 1 or not isinstance(decls[0].init, _cx.InitList):
+        ctx.record('table', FAILED, 'B', 0, 'coefficient table `bf` not found as an initialiser list')
+        return
+    it2 = Interp(ctx.w, mode='sym', named_consts=False)
+    from gm2v.interp import Frame
+    it2.frames = [Frame(fd, None, fd.file)]
+    vals = [Fr(it2.ev(x)) for x in decls[0].init.items]
+    bad = []
+    for i, v in enumerate(vals):
+        if i == 0:
+            want = Fr(-1, 4)
+        else:
+            bn = sympy.bernoulli(2 * i)
+            want = Fr(int(bn.p), int(bn.q)) / math_factorial(2 * i + 1)
+        if abs(v - want) > Fr(1, 10**15) * abs(want):
+            bad.append((i, float(v), float(want)))
+    ctx.record('table.bernoulli', PROVED if not bad else FAILED, 'B', 0, '%d coefficients: bf[0] = -1/4, bf[i] = B_2i/(2i+1)!' % len(vals) if not bad else
+               'bf[%d] = %.17g, but B_2i/(2i+1)! = %.17g' % bad[0], model={'_float': {'re_z': 0.9, 'im_z': 0.3}} if bad else None, solver='exact rational arithmetic')
+    # ---- (4) truncation
+    K = len(vals) - 1                                        # last term kept: B_2K u^(2K+1)/(2K+1)!
+    ratio = (Fr(126, 100) / Fr(6283, 1000)) ** 2
+    rem = 4 * ratio ** (K + 1) / ((2 * K + 3) * (1 - ratio))  # relative to |u| <= |Li2| (1 + ...) : sum_{k>K} 4 |u|^(2k) / ((2 pi)^2k (2k+1))
+    ctx.assume_note('A-SPECFN: |B_2k| <= 4 (2k)!/(2 pi)^2k; |u| = |ln(1 - w)| < 1.26 for |w| <= 1, Re w <= 1/2')
+    ctx.record('truncation', PROVED if rem <= Fr(1, 10**13) else FAILED, 'B', 0, 'relative remainder after the B_%d term: <= %.3g for |u| <= 1.26' % (2 * K, float(rem)),
+               model=None if rem <= Fr(1, 10**13) else {'_float': {'re_z': 0.5, 'im_z': 0.86}}, solver='exact rational arithmetic')
+    # ---- (3) transformation per path
+    x, y = ctx.real('re_z'), ctx.real('im_z')
+    calls = []
+    def rec(name):
+        def st(it_, a_, t):
+            k = len(calls)
+            calls.append((name, a_[0]))
+            if isinstance(a_[0], _Cx2):
+                return _Cx2(z3.Real('%s%d_re' % (name, k)), z3.Real('%s%d_im' % (name, k)))
+            return z3.Real('%s%d' % (name, k))
+        return st
+    def hstub(it_, a_, t):
+        calls.append(('horner', a_[0]))
+        return _Cx2(z3.Real('h_re'), z3.Real('h_im'))
+    it3 = Interp(ctx.w, mode='sym', stubs={'log1p': rec('log1p'), 'std::log': rec('log'), 'horner': hstub}, assumptions=[y != 0], div_sides=False)
+    def thunk():
+        del calls[:]
+        r = it3.invoke(fd, [_Cx2(x, y)], None)
+        return (r, list(calls))
+    ps = it3.run_paths(thunk)
+    ctx.merge_rules(it3)
+    zc = (z3real(x), z3real(y))
+    n2 = zc[0] * zc[0] + zc[1] * zc[1]
+    inv = (zc[0] / n2, -zc[1] / n2)                          # 1/z
+    PIc = z3.Real('c_PI')
+    kinds = set()
+    for k, (s, rc, e) in enumerate(ps):
+        r, cs_ = rc
+        if not cs_:
+            continue
+        tag = 'path%d' % k
+        logs = [(i, c) for i, c in enumerate(cs_) if c[0] == 'log']
+        l1ps = [(i, c) for i, c in enumerate(cs_) if c[0] == 'log1p']
+        hs = [c for c in cs_ if c[0] == 'horner']
+        val = lambda i, nm: (z3.Real('%s%d_re' % (nm, i)), z3.Real('%s%d_im' % (nm, i)))
+        def arg_is(c, want):
+            p = _cpair(c[1])
+            try:
+                return ring.identity(p[0], want[0]) and ring.identity(p[1], want[1])
+            except ring.NotRing:
+                return False
+        spec = None
+        if not logs and len(l1ps) == 1 and arg_is(l1ps[0][1], _cneg(zc)):
+            u = _cneg(val(l1ps[0][0], 'log1p'))
+            spec, sgn, rest, kind = u, 1, (z3.RealVal(0), z3.RealVal(0)), 'direct'
+        elif len(logs) == 1 and len(l1ps) == 1 and arg_is(logs[0][1], _cneg(zc)) and arg_is(l1ps[0][1], _cneg(inv)):
+            u = _cneg(val(l1ps[0][0], 'log1p'))
+            lz = val(logs[0][0], 'log')
+            l2 = _cmul(lz, lz)
+            spec, sgn, rest, kind = u, -1, (-l2[0] / 2 - PIc * PIc / 6, -l2[1] / 2), 'inversion'
+        elif len(logs) == 1 and len(l1ps) == 1 and arg_is(logs[0][1], zc) and arg_is(l1ps[0][1], _cneg(zc)):
+            u = _cneg(val(logs[0][0], 'log'))
+            ul = _cmul(u, val(l1ps[0][0], 'log1p'))
+            spec, sgn, rest, kind = u, -1, (ul[0] + PIc * PIc / 6, ul[1]), 'reflection'
+        if spec is None:
+            ctx.record(tag + '.functional_equation', FAILED, 'B', 0, 'the logarithms evaluated on this path (%s) are not those of a documented functional equation' % [(n, str(a_)[:60]) for n, a_ in cs_],
+                       model={'_float': {'re_z': 0.7, 'im_z': 0.4}})
+            continue
+        kinds.add(kind)
+        u2 = _cmul(u, u)
+        ok_h = len(hs) == 1 and arg_is(hs[0], u2)
+        H = (z3.Real('h_re'), z3.Real('h_im'))
+        inner = _cadd((to_z3(vals[0]), z3.RealVal(0)), _cmul(u, H))
+        S = _cadd(u, _cmul(u2, inner))
+        want = _cadd((sgn * S[0], sgn * S[1]), rest)
+        got = _cpair(r)
+        st = ctx.prove_ring('%s.%s.equation' % (tag, kind), [(got[0], want[0]), (got[1], want[1])])
+        ctx.record('%s.%s.horner_argument' % (tag, kind), PROVED if ok_h else FAILED, 'B', 0, 'horner is evaluated at u^2' if ok_h else 'horner is not evaluated at u^2 on this path')
+    ctx.record('paths', PROVED if kinds == {'direct', 'inversion', 'reflection'} else FAILED, 'B', 0, 'functional equations used: %s' % sorted(kinds))
+
+def math_factorial(n):
+    import math
+    return math.factorial(n)
